@@ -30,7 +30,7 @@ Proof.
   - right. exact (IH f H).
 Qed.
 
-Theorem special_forms_pure_refuted : exists n f, In (n, f) special_forms /\ effect_of f <> [].
+Theorem special_forms_pure_refuted : exists n f, In (n, f) special_forms /\ effect_of Bare f <> [].
 Proof.
   exists "include", "special:include". split.
   - apply assoc_In. vm_compute. reflexivity.
@@ -38,7 +38,7 @@ Proof.
 Qed.
 
 Theorem sandbox_tables_pure_refuted_sys : exists n k f,
-  In (n, k, f) (bindings Std) /\ k <> KValue /\ effect_of f = [Eprocess].
+  In (n, k, f) (bindings Std) /\ k <> KValue /\ effect_of Std f = [Eprocess].
 Proof.
   exists "sys", KBuilder, "SystemBuilder".
   assert (H : find_binding "sys" (bindings Std) = Some (KBuilder, "SystemBuilder")) by (vm_compute; reflexivity).
@@ -46,12 +46,12 @@ Proof.
 Qed.
 
 Theorem sandbox_tables_pure_refuted_import : exists n k f,
-  In (n, k, f) (bindings Std) /\ k <> KValue /\ effect_of f = [Efileread].
+  In (n, k, f) (bindings Std) /\ k <> KValue /\ effect_of Std f = [Efileread].
 Proof.
   exists "import", KBuilder, "ImportPackageBuilder".
   assert (H : find_binding "import" (bindings Std) = Some (KBuilder, "ImportPackageBuilder")) by (vm_compute; reflexivity).
   destruct (find_binding_In _ _ _ _ H) as [H1 H2]. split; [exact H1|]. split; [exact H2|]. vm_compute. reflexivity.
 Qed.
 
-Theorem sandbox_no_effect_refuted : exists c p, sandboxed c = true /\ effects_of (run_abs c p) <> [].
+Theorem sandbox_no_effect_refuted : exists c p, sandboxed c = true /\ effects_of c (run_abs c p) <> [].
 Proof. exists Bare, (PSpecial "include" [PConst]). split; [reflexivity | vm_compute; discriminate]. Qed.
